@@ -259,6 +259,18 @@ def rules(ck, P):
             ir.contains(b["body"], lambda y: y.get("k") == "mcall" and y.get("name") == "get" and ir.place_str(y["recv"]).endswith("level_bbox") and ir.place_str(y["a"][0]).endswith(".z"))
         ck.check(okc, "R-ZOOM", b["q"], "contains_coord looks up the box of the coordinate's own zoom level and tests containment", "contains_coord does not test the coordinate against its own level's box", ir.loc(b))
 
+    # ---------------- R-BUILD-ERR|nan: a bbox argument with a NaN component is an invalid argument like any other.  The VPL number parser
+    # (f64::from_str) accepts `NaN`, every comparison with NaN is false and f64::min/max then replace it by the other operand, so only
+    # a validation written as "ensure!(x >= lo)" (or an explicit is_nan / is_finite test) stops it; nanflow.py walks
+    # TileBBox::from_geo - the function every geographic filter goes through, per level - with each of the four components set to NaN
+    from . import nanflow
+    fg = [b for b in P.bodies if b["q"].endswith("tile_bbox::TileBBox::from_geo")]
+    if ck.anchor("R-BUILD-ERR", "TileBBox::from_geo", fg, 1):
+        res = nanflow.box_component_rejected(P, fg[0]["q"])
+        bad = sorted(k for k, v in (res or {}).items() if not v) if res is not None else ["?"]
+        ck.check(res is not None and not bad, "R-BUILD-ERR", fg[0]["q"] + "|nan", "a geographic box with a NaN in any of its four components is rejected on every path (comparisons with NaN evaluated as false)",
+                 "a NaN in component(s) %s of the box passes the validation of TileBBox::from_geo on some path (range tests written so that `false` means valid): "
+                 "`filter_bbox bbox=[NaN,0,20,20]` builds without an error and the NaN turns into the last tile column / row" % bad, ir.loc(fg[0]))
     # ---------------- R-BUILD-ERR
     entries = [b["q"] for b in P.bodies if b["q"].endswith(("PipelineFactory::operation_from_vpl", "PipelineFactory::build_pipeline")) or
                b.get("trait_item", "").endswith(("FactoryTrait::build",)) or (b["q"].endswith("::build") and "operations::" in b["q"])]
